@@ -1,0 +1,43 @@
+//go:build verif
+
+package netmap
+
+import (
+	"github.com/nspcc-dev/neofs-node/pkg/morph/client/container"
+	nmClient "github.com/nspcc-dev/neofs-node/pkg/morph/client/netmap"
+	"github.com/nspcc-dev/neofs-node/pkg/morph/event"
+	"github.com/nspcc-dev/neofs-sdk-go/netmap"
+	"go.uber.org/zap"
+)
+
+// VerifNewProcessorFull is VerifNewProcessor with a Container contract client (the new epoch
+// handler updates container placements through it when the network map changed) and with the
+// alphabet sync / notary deposit handlers of the caller (verification harness only: histories
+// of events against ONE processor instance).
+func VerifNewProcessorFull(nm *nmClient.Client, cnr *container.Client, timer EpochTimerReseter, epochState EpochState,
+	alphabet AlphabetState, v NodeValidator, onAlphabetSync, onNotaryDeposit event.Handler) *Processor {
+	p := &Processor{
+		log:                 zap.NewNop(),
+		epochTimer:          timer,
+		epochState:          epochState,
+		alphabetState:       alphabet,
+		netmapClient:        nm,
+		containerWrp:        cnr,
+		handleAlphabetSync:  onAlphabetSync,
+		handleNotaryDeposit: onNotaryDeposit,
+		nodeValidator:       v,
+	}
+	p.curMap.Store(new(netmap.NetMap))
+	return p
+}
+
+// VerifCurMapKeys returns the public keys of the nodes of the processor's current network map
+// snapshot (the one the last processed new epoch notification has left), in the snapshot's order.
+func (np *Processor) VerifCurMapKeys() [][]byte {
+	nm := np.curMap.Load().(*netmap.NetMap)
+	var res [][]byte
+	for _, n := range nm.Nodes() {
+		res = append(res, n.PublicKey())
+	}
+	return res
+}
